@@ -1,10 +1,19 @@
 ENGINES = [
     {'name': 'X', 'path': 'lib/xworker.py', 'kind_free_text': 'CrossHair 0.0.110 symbolic execution of the real Python functions (z3 decides every branch), one OS process per condition, vacuity twin per condition, plain-CPython replay of every counterexample',
-     'serves_properties': ['C06', 'C10', 'C17']},
+     'serves_properties': ['C06', 'C09', 'C10', 'C17']},
 ]
 NOTES = ('Technique family: solver-based checking of the real code. Every result is bounded; bounds, stubs and '
          'assumptions are in evidence/<id>.json and DESIGN.md. Exit 2 of ./check = harness error (never a verdict).')
 CLAIMS = {
+    'C09': dict(
+        engine='X',
+        technique='bounded symbolic interleaving + fault plan (CrossHair+z3 choose schedule, crash index, I/O-error index) over the real LocalArchive upload/mirror code run as replayable processes on a stub POSIX file system',
+        text='For two uploaders of one Build-Id with different payloads, a cache-mirroring downloader (strict and nofail cache) and metadata uploads: in EVERY interleaving of their '
+             'shared file-system operations, with a kill at every operation or an injected EIO/ENOSPC at every operation of one party, a reader sees under the artifact name nothing '
+             'or one complete artifact whose inode and content never change afterwards; a failed upload publishes nothing; metadata files are never partial under their final name.',
+        design_ref='DESIGN.md section 4, C09',
+        note='Trusted: lib/symfs.py + lib/procs.py (atomic link/rename/unlink, EEXIST on link), operations on a process-private temp file are not scheduling points (they commute). '
+             'TarHelper._pack is replaced by a 3-chunk writer. Outside: HTTP/Azure/custom back-ends, Windows rename branch, more than 2 concurrent writers.'),
     'C06': dict(
         engine='X',
         technique='bounded symbolic schedule exploration (CrossHair+z3 choose every scheduling decision) of the real JobServerSemaphore coroutines on a stub event loop and pipe',
